@@ -14,6 +14,7 @@ import (
 	"github.com/massnetorg/mass-core/pocec"
 	"github.com/shirou/gopsutil/mem"
 	"massnet.org/mass/poc/engine/massdb"
+	"massnet.org/mass/verifhook"
 )
 
 const (
@@ -40,6 +41,7 @@ func makeAvailableMemory(cache *MemCache, requiredMem, maxMem, minMem uint64) er
 		}
 		requiredMem = (available / minMem) * minMem
 	}
+	requiredMem = verifhook.Size("plot.cache", requiredMem)
 	cache.Update(requiredMem)
 	return nil
 }
@@ -101,8 +103,10 @@ func (mdb *MassDBV1) executePlot(result chan error) {
 	}
 	logging.CPrint(logging.INFO, "remove hashMapA",
 		logging.LogFormat{"bit_length": mdb.bl, "pub_key": hex.EncodeToString(mdb.pubKey.SerializeCompressed())})
+	verifhook.Point("plot.beforeRemoveA", mdb)
 	mdb.HashMapA.Close()
 	os.Remove(mdb.filePathA)
+	verifhook.Point("plot.afterRemoveA", mdb)
 	mdb.HashMapA = nil
 	logging.CPrint(logging.INFO, "plot finished",
 		logging.LogFormat{"bit_length": mdb.bl, "pub_key": hex.EncodeToString(mdb.pubKey.SerializeCompressed())})
@@ -169,16 +173,19 @@ func (mdb *MassDBV1) prePlotWork(cache *MemCache) error {
 			return err
 		}
 		hmA.data.Sync() // write pre-plot data first
+		verifhook.Point("plot.A.dataSynced", mdb, uint64(startPoint), uint64(endPoint))
 
 		hmA.checkpoint = startPoint + 1
 		hmA.UpdateCheckpoint()
 		hmA.data.Sync() // then write new checkpoint
+		verifhook.Point("plot.A.checkpointed", mdb, uint64(startPoint), uint64(endPoint))
 		startPoint = endPoint
 	}
 
 	hmA.checkpoint = hmA.volume
 	hmA.UpdateCheckpoint()
 	hmA.data.Sync()
+	verifhook.Point("plot.A.final", mdb)
 	return nil
 }
 
@@ -259,15 +266,18 @@ func (mdb *MassDBV1) plotWork(cache *MemCache) error {
 			return err
 		}
 		hmB.data.Sync() // write plot data first
+		verifhook.Point("plot.B.dataSynced", mdb, uint64(startPoint), uint64(endPoint))
 
 		hmB.checkpoint = startPoint + 1
 		hmB.UpdateCheckpoint()
 		hmB.data.Sync() // then update checkpoint
+		verifhook.Point("plot.B.checkpointed", mdb, uint64(startPoint), uint64(endPoint))
 		startPoint = endPoint
 	}
 
 	hmB.checkpoint = half
 	hmB.UpdateCheckpoint()
 	hmB.data.Sync()
+	verifhook.Point("plot.B.final", mdb)
 	return nil
 }
